@@ -155,6 +155,10 @@ class FullOps(TorchCalls):
             if isinstance(r, TV) and "dtype" not in kwargs:
                 r = r.but(dtype=t.dtype)
             return r
+        if name == "new_tensor" and t.kind == "tensor" and args:
+            # t.new_tensor(data) == torch.tensor(data, dtype=t.dtype, device=t.device): a copy of the data in t's dtype
+            r = self.call_lib("torch.", "tensor", list(args[:1]), {}, node, env)
+            return r.but(dtype=t.dtype if "dtype" not in kwargs else self.dtype_from_kwargs(kwargs, t.dtype), alias=False) if isinstance(r, TV) else r
         # conversions / views
         if name in ("detach", "cpu", "cuda", "contiguous", "real", "ravel"):
             return t.but(axes=("K",) if name == "ravel" and len(t.axes) > 1 else t.axes)
